@@ -23,9 +23,11 @@
 (*                error, exit status 2          (__main__.main, argparse)  *)
 (*  R2  read      an unreadable input (missing, a directory) is reported   *)
 (*                as a usage error, exit 2      (__main__.main: OSError)   *)
-(*                an undecodable input must be REPORTED (error or, if a    *)
-(*                fix chooses to decode leniently, compiled); an exception *)
-(*                escaping is never legal       (property C10)             *)
+(*                an undecodable input must be REPORTED: SourceCode.       *)
+(*                from_file may raise ("decode_error") provided main()     *)
+(*                turns it into a usage error or a diagnostic, or a fix    *)
+(*                may decode leniently and compile; a traceback is never   *)
+(*                legal                         (property C10)             *)
 (*  R3  phases    parse -> check -> codegen (CodeGen constructor) each end *)
 (*                "ok" or "error" = CompilerError all of whose spans lie   *)
 (*                inside the source; "escape" (any other exception type)   *)
@@ -109,11 +111,12 @@ Args(ev) == GArgs(ev) /\ d' = [d EXCEPT !.ph = IF ev.r = "ok" THEN "args_ok" ELS
 GRead(ev) ==
     /\ d.ph = "args_ok" /\ ev.k = "read"
     /\ CASE d.o.inp = "file"        -> (ev.r = "ok")
-         [] d.o.inp = "undecodable" -> (ev.r \in {"ok", "oserror"} /\ CliLike)        \* R2
+         [] d.o.inp = "undecodable" -> (ev.r \in {"ok", "oserror", "decode_error"} /\ CliLike)   \* R2
          [] OTHER                   -> (ev.r = "oserror" /\ CliLike)
 Read(ev) ==
     /\ GRead(ev)
-    /\ d' = [d EXCEPT !.ph = IF ev.r = "ok" THEN "read_ok" ELSE "usage_fail",
+    /\ d' = [d EXCEPT !.ph = IF ev.r = "ok" THEN "read_ok"
+                             ELSE IF ev.r = "decode_error" THEN "read_failed" ELSE "usage_fail",
                       !.lens = IF ev.r = "ok" THEN ev.s ELSE <<>>]
 
 PhaseOK(ev) == ev.r = "ok" \/ (ev.r = "error" /\ Located(ev.s, d.lens))             \* R3, R4
@@ -162,10 +165,14 @@ GStderr(ev) ==
     /\ ev.k = "stderr" /\ CliLike
     /\ \/ d.ph = "rendered" /\ ev.r = "diag"                                          \* R7
        \/ d.ph = "usage_fail" /\ ev.r = "usage"
+       \/ d.ph = "read_failed" /\ ev.r \in {"usage", "diag"}                          \* R2
        \/ d.ph = "succeeded" /\ ev.r = "none"
 Stderr(ev) ==
     /\ GStderr(ev)
-    /\ d' = [d EXCEPT !.ph = "stderr_done", !.res = IF d.ph = "usage_fail" THEN "usage" ELSE @]
+    /\ d' = [d EXCEPT !.ph = "stderr_done",
+                      !.res = IF d.ph = "usage_fail" THEN "usage"
+                              ELSE IF d.ph = "read_failed" THEN (IF ev.r = "usage" THEN "usage" ELSE "diag")
+                              ELSE @]
 
 GStdout(ev) ==
     /\ d.ph = "stderr_done" /\ ev.k = "stdout"
@@ -221,7 +228,7 @@ Act(ev) ==
 (* the phase events the black-box command line does not show *)
 HiddenKinds == {"args", "read", "parse", "check", "codegen", "open", "gen", "close", "render"}
 HiddenEvents ==
-    {Ev(k, r, n, <<>>, "") : k \in HiddenKinds, r \in {"ok", "error", "oserror", "usage"}, n \in {0, 1}}
+    {Ev(k, r, n, <<>>, "") : k \in HiddenKinds, r \in {"ok", "error", "oserror", "usage", "decode_error"}, n \in {0, 1}}
 
 (* which clause of the property an illegal event breaks (diagnostic only) *)
 Why(ev) ==
